@@ -647,6 +647,39 @@ func runC17(c *mc.Ctx) {
 			c17UnitsOf(w, a, -12, 12)
 		})
 	}
+	// (B3) MID-RANGE amounts with DENSE digits: the windows above sit at powers of two, powers of ten
+	// and whole coins, the sparse family has at most three non-zero digits - an error that depends on
+	// the particular mantissa of a quotient (two roundings instead of one, a precision one digit short)
+	// shows at neither.  Three lattices across the whole range [0, 2.1e15]: multiples of an odd stride
+	// near 2.0e9 (2^20 points; thorough 2^23 with a stride near 2.5e8), the amounts
+	// 123456789012345 - 97k and 2099999997690000 - 1000003k (2^18 points each), both signs, each
+	// with round trip, String and every unit exponent.
+	{
+		n1, s1 := mc.Pick[int64](c, 1<<20, 1<<23), mc.Pick[int64](c, 2002999993, 250374997)
+		n2 := int64(1 << 18)
+		c.Space("amounts (both signs) on three lattices across the whole range (dense decimal digits, far from powers of two and ten), each with round trip, String and 25 unit exponents", 2*(n1+2*n2))
+		c.ParFor(2*(n1+2*n2), func(w *mc.W, i int64) {
+			k := i / 2
+			var a int64
+			switch {
+			case k < n1:
+				a = k * s1
+			case k < n1+n2:
+				a = 123456789012345 - 97*(k-n1)
+			default:
+				a = 2099999997690000 - 1000003*(k-n1-n2)
+			}
+			if a > c17Cap {
+				return
+			}
+			if i%2 == 1 {
+				a = -a
+			}
+			w.State()
+			c17EvalAmt(w, c17Amt{A: a})
+			c17UnitsOf(w, a, -12, 12)
+		})
+	}
 	c.Sample("amt", c17Amt{A: c17Cap - 1})
 	c.Sample("unit", c17Unit{A: 123456789, Unit: -3})
 	c.Sample("unit", c17Unit{A: -c17Cap + 1, Unit: 12})
@@ -696,6 +729,26 @@ func runC17(c *mc.Ctx) {
 		w.State()
 		c17FloatCore(w, f)
 	})
+	// the same float neighbourhoods around mid-range targets k on a lattice (dense digits)
+	{
+		nk, sk := mc.Pick[int64](c, 1<<15, 1<<18), mc.Pick[int64](c, 64087999991, 8010999997)
+		c.Space("floats: lattice of mid-range k x {k-1/2,k,k+1/2} x 9 neighbouring products x 5 neighbouring quotients x sign", nk*perK)
+		c.ParFor(nk*perK, func(w *mc.W, i int64) {
+			k := (i/perK)*sk + 12345
+			if k > c17Cap {
+				return
+			}
+			j := int(i % perK)
+			sign, fo, po, ti := j%2, (j/2)%5-2, (j/10)%9-4, j/90
+			t := float64(k) + []float64{-0.5, 0, 0.5}[ti]
+			f := nextN(nextN(t, po)/1e8, fo)
+			if sign == 1 {
+				f = -f
+			}
+			w.State()
+			c17FloatCore(w, f)
+		})
+	}
 	c.Space("special floats (NaNs, infinities, zeros, subnormals, extremes)", int64(len(c17SpecialBits)))
 	w := c.Worker()
 	for _, b := range c17SpecialBits {
